@@ -337,6 +337,9 @@ class Checker:
                     get_return_override=get_return_override,
                     get_call_attribute=get_call_attribute,
                 )
+            if isinstance(typ, super):
+                # a super() object; it is not callable
+                return None
             if getattr(typ.__call__, "__objclass__", None) is type and not issubclass(
                 typ, type
             ):
